@@ -1201,6 +1201,9 @@ pub fn run(run: &'static Run) {
         run.set(&format!("engine_scenario:{}", sc.name), json!({"depth_bound_completed": st.depth_completed, "unique_states": st.states, "transitions": st.transitions}));
     }
     // reserves, deposits and swaps beyond 64 bits (products beyond 128 bits in the peg and in the pro-rata shares)
+    // hundreds of requests of 2^120 against one pool in one block (swaps, deposits, withdrawals of tokens never issued: totals of
+    // 255 x 2^120, exactly 2^128 and beyond) - the engine tags a panic at their seal with this property
+    crate::props::c01::many_huge_requests(run, false);
     crate::props::c15::huge_amounts(run, false);
     crate::props::c16::huge_liquidity(run, false);
     crate::props::c16::lopsided_huge_pool(run);
